@@ -2,7 +2,7 @@ INIT Init
 NEXT Next
 CONSTANTS
   MaxLen = 5
-  NB = 30
+  NB = 31
   Alphabet <- AlphaFull
   EmitMod = 16
 INVARIANT NoCrash
